@@ -5,6 +5,7 @@ Property theorems about `JinnsModel/LossTerms.lean`, for every residual map, eve
 terms of the three losses.
 -/
 import JinnsModel.LossTerms
+import JinnsModel.HoldsC03
 import Mathlib.Tactic.Ring
 import Mathlib.Tactic.FieldSimp
 import Mathlib.Tactic.Linarith
@@ -234,6 +235,26 @@ theorem dynTerm_halves {α : Type} (w : Weight) (r : α → List ℚ) (xs ys : L
   have e : ((ys.length : ℚ) + (ys.length : ℚ)) = 2 * (ys.length : ℚ) := by ring
   rw [e, div_eq_mul_inv, mul_inv]
   ring
+
+/-! ### the predicate `Holds.C03` states the same closed form -/
+
+/-- a model weight as `Holds.C03` observes it -/
+def toW03 : Weight → Jinns.Holds.W03
+  | .scalar a => { scalar := some a, vec := [] }
+  | .vec ws => { scalar := none, vec := ws }
+
+/-- the closed form that `Holds.C03` compares the implementation's `dyn_loss` with, evaluated on
+    the residual table `xs.map r`, is the model's dynamic term: the theorems above (homogeneity,
+    additivity, permutation invariance, halves) are therefore statements about exactly the quantity
+    the predicate checks. -/
+theorem holds_closed_form_eq_dynTerm {α : Type} (w : Weight) (r : α → List ℚ) (xs : List α) :
+    Jinns.Holds.c03Dyn (toW03 w) (xs.map r) = dynTerm w r xs := by
+  have hrow : ∀ l : List ℚ, Jinns.Holds.c03Row (toW03 w) l = wsq w l := by
+    intro l
+    cases w with
+    | scalar a => simp [Jinns.Holds.c03Row, toW03, wsq, sqr, List.sum_map_mul_left]
+    | vec ws => simp [Jinns.Holds.c03Row, toW03, wsq, sqr]
+  simp only [Jinns.Holds.c03Dyn, dynTerm, mean, List.map_map, List.length_map, Function.comp_def, hrow]
 
 /-! ### non-vacuity -/
 
